@@ -391,6 +391,54 @@ func clientCase(seed uint64, idx int) *CaseSpec {
 		default:
 			t.Add("cl.await => timeout")
 		}
+		// the application acknowledges some results while it still holds a snapshot of all of
+		// them: the snapshot is the application's, the queue the client's (a queue with a nil
+		// entry — left by a failed dequeue — is not acknowledged: AckResult does not expect one)
+		if res0, err := c.Results(); err == nil && len(res0) > 0 {
+			hasNil := false
+			for _, x := range res0 {
+				if x == nil {
+					hasNil = true
+				}
+			}
+			render := func(l []*client.OpResult) string {
+				o := []string{}
+				for _, x := range l {
+					if x == nil {
+						o = append(o, "nil")
+						continue
+					}
+					d := "-"
+					if x.Details != nil {
+						d = fmt.Sprintf("%+v", *x.Details)
+					}
+					o = append(o, fmt.Sprintf("%d/%d/%s/%v/%v/%s", x.OperationID, statusNum(x.ProgrammingResult), d, x.CurrentServerElectionID != nil, x.SessionParameters != nil, x.ClientError))
+				}
+				return strings.Join(o, " ; ")
+			}
+			if !hasNil {
+				before := render(res0)
+				pick := []*client.OpResult{}
+				ids := []uint64{}
+				seen := map[uint64]bool{}
+				for _, x := range res0 {
+					if x.OperationID != 0 && !seen[x.OperationID] && r.IntN(2) == 0 {
+						seen[x.OperationID] = true
+						pick = append(pick, x)
+						ids = append(ids, x.OperationID)
+					}
+				}
+				if len(pick) > 0 {
+					aerr := c.AckResult(pick...)
+					t.Add("cl.ack %s => %s", L(ids), B(aerr != nil))
+					if !obs() {
+						t.Add("end")
+						return t, nil
+					}
+					t.Add("cl.snap %s", B(render(res0) == before))
+				}
+			}
+		}
 		t.Add("end")
 		return t, nil
 	}
